@@ -1,11 +1,20 @@
 /-
-C17 — proved counter-examples (filled in below) and their protocol lines.
+C17 — proved counter-examples: the two clauses of the property that the unchanged tree
+violates at full strength.  Each theorem is kernel-evaluated (`decide`) on the models; the same
+inputs are exported as protocol lines (`witnessLines`, Driver.lean) and replayed on the real
+`caddyfile.Format` / `caddyfile.Tokenize` on every run.
 -/
+import CaddyModel.C17.Spec
 import CaddyModel.C17.Driver
 
 namespace CaddyModel.C17
 
-/-- counter-example lines replayed on the implementation on every run -/
-def witnessLines : List String := []
+/-- FULL STATEMENT (false): `∀ x, preservesTokens x`.  A trailing `{` is dropped. -/
+theorem fmt_preserves_tokens_full_fails : ∃ x : List Rune, preservesTokens x = false :=
+  ⟨runes "a {", by decide⟩
+
+/-- FULL STATEMENT (false): `∀ x, idempotentAt x`.  `a< <⏎<` ↦ `a<<⏎<` ↦ `a<<<`. -/
+theorem fmt_idempotent_full_fails : ∃ x : List Rune, idempotentAt x = false :=
+  ⟨runes "a< <\n<", by decide⟩
 
 end CaddyModel.C17
